@@ -32,6 +32,38 @@ def classify(slot, step):
     return "wrong_value"
 
 
+SUFX = {"": 0, "k": 3, "M": 6, "G": 9, "T": 12, "P": 15, "Z": 18, "Y": 21}
+
+
+def eval_tree_f64(e):
+    """double-precision value of an expression tree in exactly the order the tree prescribes; x / 0 = 0 (statement of C02).
+    The tree comes from the specification (Gen_Arith); this is only the floating-point evaluation of it."""
+    t = e["t"]
+    if t == "lit":
+        return float(Fraction(e["m"][0], e["m"][1]) * (10 ** SUFX[e.get("sfx", "")]) / (10 ** e.get("tiny", 0)))
+    if t == "par":
+        return eval_tree_f64(e["e"])
+    if t == "neg":
+        return -eval_tree_f64(e["e"])
+    l, r = eval_tree_f64(e["l"]), eval_tree_f64(e["r"])
+    if e["op"] == "+":
+        return l + r
+    if e["op"] == "-":
+        return l - r
+    if e["op"] == "*":
+        return l * r
+    if r == 0.0:
+        return 0.0
+    x = l / r
+    return x if x == x and x not in (float("inf"), float("-inf")) else 0.0
+
+
+def close_f64(want, got, rel=1e-12):
+    if got is None:
+        return False
+    return abs(got - want) <= rel * abs(want) if want != 0 else abs(got) <= 1e-300
+
+
 def feat_class(kind, feat):
     return "%s|sbp=%d|sin=%d|adj=%d|depth=%s|sfx=%s|sp=%s|var=%s" % (
         kind, feat["sign_before_paren"], feat["sign_inside"], feat["adjacent"], min(feat["paren_depth"], 3),
@@ -100,12 +132,24 @@ def run(rep):
             nontrivial = any(t["k"] == "op" for t in toks)
             rep.case([text, cfg["dec"], cfg["tho"]], nontrivial)
             rep.replayed += 1
-            expf = q_to_fraction(exp["q"])
             slot = None
             ss = proj.slots_of_step(st)
             if ss is not None and ss[0] and len(ss[1]) == 1:
                 slot = ss[1][0]
-            okv = slot is not None and slot["k"] == "num" and close(expf, float(slot["f"]) if "f" in slot else None)
+            got = None
+            try:
+                got = float(slot["f"]) if slot is not None and slot["k"] == "num" else None
+            except Exception:
+                got = None
+            f64v = eval_tree_f64(c["tree"])
+            if exp["k"] == "f64tree":
+                expf = Fraction(f64v)
+                okv = close_f64(f64v, got)
+            else:
+                expf = q_to_fraction(exp["q"])
+                # two oracles: the exact rational value (1e-9) and the double-precision evaluation of the tree (1e-12) when the
+                # spelling is the tree's own (minimal / full parentheses); adjacency and assignment spellings use the rational only
+                okv = got is not None and close(expf, got) and (var not in ("min", "full") or close_f64(f64v, got, 1e-11) or abs(f64v) < 1e-9)
             if len(rep.samples) < 4 and nontrivial and var != "min":
                 rep.sample({"text": text, "cfg": [cfg["dec"], cfg["tho"]], "expected": exp, "observed": slot})
             if not okv:
